@@ -670,7 +670,7 @@ func StripIndices(p string) string {
 			b.WriteRune(c)
 		}
 	}
-	return b.String()
+	return strings.TrimPrefix(b.String(), ".")
 }
 
 type seg struct {
@@ -732,6 +732,12 @@ func Mutated(rng *rand.Rand, v any, path string) (any, bool) {
 func mutate(rng *rand.Rand, v reflect.Value, segs []seg) bool {
 	t := v.Type()
 	if len(segs) == 0 {
+		for v.Kind() == reflect.Ptr {
+			if v.IsNil() {
+				return false
+			}
+			v = v.Elem()
+		}
 		return mutateLeaf(rng, v)
 	}
 	s := segs[0]
